@@ -58,6 +58,9 @@ pub fn write_file(dir: &Path, name: &str, file: &MidasFile, lz4: bool, truncate_
         bytes = lz4_frame(&bytes);
     }
     let p = dir.join(os_path(name));
+    if let Some(parent) = p.parent() {
+        let _ = std::fs::create_dir_all(parent);
+    }
     if let Err(e) = std::fs::write(&p, bytes) {
         simcore::driver::harness_error(&format!("cannot write simulated run file {}: {e}", p.display()));
     }
